@@ -65,6 +65,27 @@ def run(ctx):
             ids.append(cid)
             cases.append({"id": cid, "steps": st2, "marks": marks})
         groups.append((f"m{t}", steps, marks, ids))
+    # small files that share their beginning, and one that IS that beginning, all in one combined block: whatever sharing of
+    # content a writer attempts inside a block, which copy it points at must not vary between replays
+    for t in range(1 if quick else 4):
+        head = bytes(ctx.rng.choice(b"abcdefgh") for _ in range(ctx.rng.choice([300, 600])))
+        tree = {"k": "d", "mode": 0o755, "mtime": 10**18, "c": {}}
+        for i in range(ctx.rng.choice([12, 24])):
+            tree["c"][f"p{i:02d}"] = {"k": "f", "data": (head + b"-tail-%03d" % i).hex(), "mode": 0o644, "mtime": 10**18 + i}
+        for i in range(3):
+            tree["c"][f"same{i}"] = {"k": "f", "data": (head + b"=same").hex(), "mode": 0o644, "mtime": 10**18 + 50 + i}
+        tree["c"]["zz_head_only"] = {"k": "f", "data": head.hex(), "mode": 0o644, "mtime": 10**18 + 99}
+        steps = [{"op": "init"}, {"op": "mktree", "path": "src", "tree": tree}, {"op": "backup", "opts": {"meph": 100000, "mbs": 1 << 20, "sfc": 1 << 20}}, {"op": "arch"}]
+        marks = [{"kind": "init"}, {"kind": "mktree"}, {"kind": "backup"}, {"kind": "arch"}]
+        ids = []
+        for rt in ["current", "current", "multi1", "multi2", "current", "multi8", "current", "current"]:
+            st2 = copy.deepcopy(steps)
+            st2[2]["runtime"] = rt
+            st2[0]["runtime"] = rt
+            cid = f"p{t}_{rt}_{len(ids)}"
+            ids.append(cid)
+            cases.append({"id": cid, "steps": st2, "marks": marks})
+        groups.append((f"p{t}", steps, marks, ids))
     # the wall clock must not decide archive content: a file dated a few seconds AHEAD of the clock, unchanged between two
     # backups; one replay runs at once, the other after that moment has passed
     import time
